@@ -207,8 +207,10 @@ func unresolvedMethods(src []byte) string {
 		if st, ok := t.(*ast.StarExpr); ok {
 			t = st.X
 		}
-		if id, ok := t.(*ast.Ident); ok {
-			declared[id.Name+"."+fd.Name.Name] = true
+		if _, ok := t.(*ast.Ident); ok {
+			// by method name only: a method promoted from an embedded type is
+			// declared on another receiver than the one the method value names
+			declared[fd.Name.Name] = true
 		}
 	}
 	missing := ""
@@ -229,7 +231,7 @@ func unresolvedMethods(src []byte) string {
 		if !ok {
 			return true
 		}
-		if !declared[id.Name+"."+sel.Sel.Name] {
+		if !declared[sel.Sel.Name] {
 			missing = "(*" + id.Name + ")." + sel.Sel.Name
 		}
 		return true
